@@ -61,6 +61,9 @@ Fixpoint veval (I : interp) (s : hst) (e : vx) : option vec :=
   | VApp2 f p a => obind (veval I s p) (fun u => obind (veval I s a) (fun v => Some (i_fn2 I f u v)))
   | VAdd a b => obind (veval I s a) (fun u => obind (veval I s b) (fun v => Some (vadd u v)))
   | VSub a b => obind (veval I s a) (fun u => obind (veval I s b) (fun v => Some (vsub u v)))
+  | VMul a b => obind (veval I s a) (fun u => obind (veval I s b) (fun v => Some (vmul u v)))
+  | VDiv a b => obind (veval I s a) (fun u => obind (veval I s b) (fun v => Some (vdiv u v)))
+  | VMaxc c a => obind (veval I s a) (fun v => Some (map (fun t => nmax t (seval I c)) v))
   | VScal c a => obind (veval I s a) (fun v => Some (vscal (seval I c) v))
   | VLin a x b y => obind (veval I s x) (fun u => obind (veval I s y) (fun v =>
                       Some (vlin (seval I a) u (seval I b) v)))
